@@ -159,6 +159,18 @@ fn main() {
         let src = format!("max sum(i in 0..3) {{ x_i }}\ns.t.\n    {it}\nwhere\n    let A = [1, 2, 3]\ndefine\n    x_i as Boolean for i in 0..3");
         check_program(&src, &mut rep, "iters");
     }
+    // (a3) bare logic assertions, named and unnamed, iterated and not: the name prefix and the iteration clause must survive
+    let asserts = ["pick: a or b", "a or b", "chain_i: z_i implies z_{i + 1} for i in 0..2", "not a", "nm: not (a and b)", "both: a and b", "k_i: z_i for i in 0..3", "imp: a implies b", "eq2: a iff b", "x1: a xor b", "any_i: z_i or a for i in 0..2", "nest: (a implies b) implies a", "all { a, b }", "one: any { a, b, z_0 }"];
+    for it in asserts.iter() {
+        let src = format!("solve\ns.t.\n    {it}\n    a + b <= 2\ndefine\n    a, b as Boolean\n    z_i as Boolean for i in 0..4");
+        check_program(&src, &mut rep, "asserts");
+    }
+    // (a4) data literals of mixed numeric kinds and numbers at the edges of the decimal printer
+    let mixed = ["[1.5, 2]", "[2, 1.5]", "[1, 2.5, 3]", "[[1.5, 2], [3]]", "[[1, 2], [3.5]]", "[0.000001, 1]", "[1000000, 0.5]", "0.000001", "123456789.125", "[-1, 2]", "[-1.5, 2]", "[1, -2]", "[true, 1]", "[0.0000001, 0.5]", "0.0000001", "[12345678901234567890.0, 1.5]", "[[0.0000001], [2.5]]", "[1.0, 2.0]", "[3.0, 2]"];
+    for c in mixed.iter() {
+        let src = format!("min x\ns.t.\n    x >= 1\nwhere\n    let k = {c}\ndefine\n    x as Real");
+        check_program(&src, &mut rep, "consts");
+    }
     // (b) whole programs from the repository
     if let Ok(f) = std::fs::File::open(corpus_path) {
         for line in std::io::BufReader::new(f).lines() {
